@@ -12,5 +12,5 @@ def run(tier, seed):
              "through its output transform x cartesian/paired batches; normalisation networks are non-constant over the samples; "
              "expected = LossSemantics!IC / Norm / Obs; + the structures of the parameter family (C12) with an observed parameter, including a key "
              "that is BOTH generated (parameter batch) and observed: the observed row wins; distinct = distinct structure",
-        assumptions=["polynomial networks (exact under x64); normalisation for a scalar (sliced) solution; scalar weights for the ODE "
+        assumptions=["polynomial networks (exact under x64); normalisation of a solution slice with one or two components (mean over samples and components); scalar weights for the ODE "
                      "initial condition and the normalisation"])
